@@ -333,6 +333,51 @@ def gen_rc(ctx):
 # running
 # ------------------------------------------------------------------------------------------------
 
+def cut_chunk_limits():
+    """The two encoder-side chunk-closing limit EXPRESSIONS, cut out of the working tree (they are tuning knobs: the model
+    takes them as parameters, so a retune regenerates Gen/C01.lean instead of breaking the exact-bytes tie)."""
+    src2 = open(os.path.join(vlib.REPO, "src/liblzma/lzma/lzma2_encoder.c")).read()
+    src1 = open(os.path.join(vlib.REPO, "src/liblzma/lzma/lzma_encoder.c")).read()
+    m2 = re.findall(r"const\s+uint32_t\s+left\s*=\s*(.+?)\s*-\s*coder->uncompressed_size\s*;", src2, re.S)
+    m1 = re.findall(r"rc_pending\(\s*&coder->rc\s*\)\s*>=\s*(.+?)\)\)\s*break\s*;", src1, re.S)
+    if len(m2) != 1 or len(m1) != 1:
+        return None, "chunk limit expressions not found exactly once (lzma2_encoder.c `left = X - coder->uncompressed_size`: %d, lzma_encoder.c `rc_pending(&coder->rc) >= Y)) break;`: %d)" % (len(m2), len(m1))
+    norm = lambda t: " ".join(re.sub(r"/\*.*?\*/|//[^\n]*", " ", t, flags=re.S).split())
+    return (norm(m2[0]), norm(m1[0])), ""
+
+
+def gen_stage():
+    exprs, why = cut_chunk_limits()
+    if exprs is None:
+        return False, why
+    gdir = os.path.join(vlib.CACHE, "gen", "c01inc")
+    os.makedirs(gdir, exist_ok=True)
+    q = lambda t: '"' + t.replace("\\", "\\\\").replace('"', '\\"') + '"'
+    vlib.write_if_changed(os.path.join(gdir, "c01_exprs.h"),
+                          "#define C01_TARGET_EXPR (%s)\n#define C01_TARGET_TEXT %s\n#define C01_COMPLIMIT_EXPR (%s)\n#define C01_COMPLIMIT_TEXT %s\n"
+                          % (exprs[0], q(exprs[0]), exprs[1], q(exprs[1])))
+    return vlib.gen_probe("gen_c01", "gen_c01.c", "XzVerif.Gen.C01", variant="asan", tu=TU,
+                          extra=["-I" + gdir, "-ffunction-sections", "-fdata-sections", "-Wl,--gc-sections"])
+
+
+def lean_stage_retry(ctx, mods, exes):
+    """ctx.lean_stage; the axiom audit runs outside the lake lock, so a concurrent check of another property that is rebuilding
+    an imported module (the end-to-end theorems import Props of C02/C15) can make it fail with `object file ... does not
+    exist`. That is machinery noise, not a verdict: wait and repeat (the build itself is repeated under the lock)."""
+    ok = False
+    for attempt in range(4):
+        nb = len(ctx.broken)
+        ok = ctx.lean_stage(mods, exes=exes)
+        new = ctx.broken[nb:]
+        transient = bool(new) and all(b["name"].startswith("axiom audit missing") and "does not exist" in b["detail"] for b in new)
+        if ok or not transient or attempt == 3:
+            return ok
+        del ctx.broken[nb:]
+        ctx.log("axiom audit hit a module that another check was rebuilding; repeating the Lean stage")
+        time.sleep(15)
+    return ok
+
+
 def hooks_present(bd):
     rc, out = vlib.sh("nm %s 2>/dev/null | grep -c 'lzma_verif_mf_offset_init\\|lzma_verif_sym_cb'" % os.path.join(bd, "liblzma.a"))
     names = vlib.sh("nm %s 2>/dev/null" % os.path.join(bd, "liblzma.a"))[1]
@@ -443,12 +488,12 @@ def run(ctx):
     h1, h2 = hooks_present(bd)
     ctx.cov["hooks"] = {"H1_mf_offset": h1, "H2_symtrace": h2}
     # G
-    ok, log = vlib.gen_probe("gen_c01", "gen_c01.c", "XzVerif.Gen.C01", variant="asan", tu=TU)
+    ok, log = gen_stage()
     if not ok:
         ctx.obligation_broken("stage G: Gen/C01.lean cannot be regenerated from src/liblzma/{lzma,rangecoder}", log)
     # P
-    p_ok = ctx.lean_stage(["XzVerif.Props.C01", "XzVerif.Props.C01EndToEnd", "XzVerif.Props.C01EndToEndEx",
-                           "XzVerif.Props.C01EndToEndEx2", "XzVerif.Props.C01EndToEndAll"], exes=["xzm_c01"]) if ok else False
+    p_ok = lean_stage_retry(ctx, ["XzVerif.Props.C01", "XzVerif.Props.C01EndToEnd", "XzVerif.Props.C01EndToEndEx",
+                                  "XzVerif.Props.C01EndToEndEx2", "XzVerif.Props.C01EndToEndAll"], ["xzm_c01"]) if ok else False
     okh, log, exe = build_harness(h1, h2)
     if not okh:
         ctx.obligation_broken("stage B: C01 harness does not compile against /repo", log)
